@@ -21,27 +21,44 @@ from translate import c12_atomic
 
 MANIFEST = dict(
     technique='Rocq proof (small-step model of the writer protocol; invariant over all schedules, crash points and fault '
-              'patterns of two interleaved writers) + symbolic-execution translator of __exit__ + executed crash/fault/'
-              'interleaving enumeration on the real code compared with the model by vm_compute',
-    text='Theorems in Props/C12.v, for every configuration cfg read from the source with cfg_ok cfg = true: at every point '
-         'of every schedule of two writers (any crash point, any injected OSErrors) each destination holds its complete old '
-         'or complete new token list, new exactly after its replace succeeded; any OSError or body exception means the '
-         'writer never commits and the destination is unchanged; a finished writer leaves every temp name as it was unless '
-         'its cleanup unlink itself raised; two writers never hold the same temp name, commit exactly their own data and '
-         'touch nothing that existed before. The cfg (exclusive open with retry, close before replace, unlink on exception, '
-         'cleanup after failing close/replace) is regenerated from AtomicWriter.__exit__/make_tempfile by abstract '
-         'execution on every run and kernel-checked; the real AtomicWriter and BSP.save are run under file-system '
-         'interposition with a kill (os._exit in a forked child) before every operation, an OSError at every operation and '
-         'all interleavings of two writers, and traces/directories are compared with the model.',
-    note='Trusted: Coq kernel + vm_compute, translate/c12_atomic.py, the interposer in checks/c12.py (FileIO subclass + '
-         'patched io.open/os.*), POSIX rename atomicity and O_EXCL (modelled, not verified), page cache surviving a process '
-         'kill (no power-loss durability claimed). Contents are abstract write tokens in the model; the harness maps them '
-         'to bytes. An OSError raised by the cleanup unlink itself is excluded from "no temp file left" (no implementation '
+              'patterns of two interleaved writers; AtomicWriter.__exit__ transliterated into a statement language and '
+              'interpreted symbolically in the kernel into decision trees, with a proved refinement from the tree machine '
+              'to the flag machine) + executed crash/fault/interleaving enumeration on the real code compared with the '
+              'model by vm_compute',
+    text='Theorems in Props/C12.v, for every exit protocol x whose decision trees are in the modelled family with the good '
+         'flags (proto_ok x = true, discharged for the program generated from today\'s source by vm_compute): at every '
+         'point of every schedule of two writers (any crash point, any injected OSErrors) each destination holds its '
+         'complete old or complete new token list, new exactly after its rename succeeded; any OSError or body exception '
+         'means the writer never commits and the destination is unchanged; a finished writer leaves every temp name as it '
+         'was unless its cleanup unlink itself raised; two writers never hold the same temp name, commit exactly their own '
+         'data and touch nothing that existed before; two writers to the SAME destination leave old or one complete '
+         'content; the temp-name loop settles on the least free index and no interleaving makes an index exceed N+2 '
+         '(N = highest stale temp index); BSP.save = rebuild phase without file-system operations + one writer. '
+         'translate/c12_atomic.py transliterates __exit__ statement by statement (fail-closed) and reads the facts of '
+         'make_tempfile and BSP.save; the kernel computes the decision trees and 30 named obligations (order of close / '
+         'rename / unlink, no rename after a failing close or a body exception, every failure path unlinks, no exception '
+         'swallowed, loop shape, only AtomicWriter output in BSP.save). The real AtomicWriter and BSP.save (existing and '
+         'fresh destination, raising body, raising rebuild phase) are run under file-system interposition with a kill '
+         '(os._exit in a forked child) before every operation, an OSError at every operation, all interleavings / all '
+         'pairs of operation boundaries of two writers and an OSError at every operation of several schedules; traces, '
+         'directories, rename and raised/returned outcomes are compared with the tree machine of the generated program. '
+         'The kernel interpreter and the transliteration are themselves tied to CPython: fixed and random __exit__ bodies '
+         'of the subset run against mock objects under result oracles and must perform the same calls and end the same '
+         'way as walk (exit_tree ..).',
+    note='Trusted: Coq kernel + vm_compute, translate/c12_atomic.py (transliteration only: the symbolic execution is in '
+         'the kernel; both are tied by the executed correspondences, the CPython one by sampling), the interposer in checks/c12.py (FileIO subclass + patched '
+         'io.open/os.*), POSIX rename atomicity and O_EXCL (modelled, not verified), page cache surviving a process kill '
+         '(no power-loss durability claimed). Contents are abstract write tokens in the model; the harness maps them to '
+         'bytes. An OSError raised by the cleanup unlink itself is excluded from "no temp file left" (no implementation '
          'can satisfy it); pathlib swallows an OSError from mkdir of an existing directory, so that fault is only injected '
-         'when the directory is created.',
+         'when the directory is created. Exit programs outside the five-flag family are modelled and compared but the '
+         'theorems do not apply to them (obligation exit_protocol_in_model_family). Buffering inside BufferedWriter/'
+         'TextIOWrapper, Path.mkdir internals and BSP lump serialisation are only exercised, not modelled; reuse of one '
+         'AtomicWriter for several with-blocks is not covered.',
 )
 
-IMPORTS = ['SV.SM.AtomicWriter', 'SV.Gen.AtomicWriter_gen', 'Coq.Lists.List']
+IMPORTS = ['SV.SM.AtomicWriter', 'SV.SM.AtomicExit', 'SV.Gen.AtomicWriter_gen', 'Coq.Lists.List', 'Coq.Bool.Bool',
+           'Coq.Arith.PeanoNat']
 PRE = 'Import ListNotations.\n'
 
 OLD_TOK = 100      # File k had content [OLD_TOK + k] before
@@ -89,7 +106,9 @@ class FsSim:
 
     # -- helpers
     def wid(self) -> int:
-        return self.wids.get(threading.get_ident(), 0)
+        # with a scheduler, only registered writer threads take turns; anything else (e.g. a leaked handle closed by
+        # the garbage collector in the main thread) is recorded as writer -1 and never waits
+        return self.wids.get(threading.get_ident(), 0 if self.sched is None else -1)
 
     def rel(self, path: Any) -> str | None:
         try:
@@ -111,7 +130,7 @@ class FsSim:
         if not self.active:
             return {}
         w = self.wid()
-        if self.sched is not None:
+        if self.sched is not None and w >= 0:
             self.sched.wait_turn(w)
         with self.lock:
             self.n += 1
@@ -121,7 +140,7 @@ class FsSim:
             self.ops.append(rec)
         if self.crash_at is not None and k == self.crash_at + 1:
             os._exit(77)
-        if inj and self.fault_at == k:
+        if inj and (self.fault_at == k or (isinstance(self.fault_at, (set, frozenset)) and k in self.fault_at)):
             rec['res'] = 'fault'
             raise OSError(errno.EIO, 'injected fault', name)
         return rec
@@ -270,6 +289,8 @@ class Sched:
 
     def wait_turn(self, w: int) -> None:
         with self.cv:
+            if self.state[w] == 'done':
+                return      # an operation after the writer's `with` is over (a leaked handle being collected)
             self.state[w] = 'waiting'
             self.cv.notify_all()
             self.cv.wait_for(lambda: self.grant == w)
@@ -346,7 +367,32 @@ def small_bsp(scratch: Path) -> str:
     return _SMALL_BSP[key]
 
 
-def run_single(sc: dict, root: str, fault_at: int | None = None, crash_at: int | None = None) -> dict:
+# ways of making BSP.save fail that do not involve the file system: name -> class of the exception that escapes save()
+BSP_BREAKS = {
+    'version-none': 'ValueError',      # raised by the first statement inside the `with AtomicWriter` (no write yet)
+    'lump-data-str': 'TypeError',      # a lump in the middle of the write order holds a str: file.write raises mid-way
+    'rebuild-raises': 'BodyError',     # the rebuild phase (before the writer is entered) raises from a lump generator
+}
+
+
+def bsp_break(b: Any, brk: str) -> None:
+    from srctools.bsp import BSP_LUMPS, LUMP_WRITE_ORDER
+    if brk == 'version-none':
+        b.version = None
+    elif brk == 'lump-data-str':
+        b.lumps[LUMP_WRITE_ORDER[len(LUMP_WRITE_ORDER) // 2]].data = 'not-bytes'
+    elif brk == 'rebuild-raises':
+        def boom(self: Any, data: Any):
+            yield b'partial-lump-data'
+            raise BodyError()
+        b._save_funcs = dict(b._save_funcs)          # instance copy; the class-level table stays as it is
+        b._save_funcs[BSP_LUMPS.ENTITIES] = boom
+        b._parsed_lumps[BSP_LUMPS.ENTITIES] = object()
+    else:
+        raise ValueError(brk)
+
+
+def run_single(sc: dict, root: str, fault_at: Any = None, crash_at: int | None = None) -> dict:
     """Run one scenario on the real code. Returns ops, outcome and final listing (not in crash mode: the child dies)."""
     populate(root, sc)
     dest = os.path.join(root, sc['dest'])
@@ -362,8 +408,16 @@ def run_single(sc: dict, root: str, fault_at: int | None = None, crash_at: int |
                 bspmod.AtomicWriter = AWSpy
                 try:
                     b = bspmod.BSP(sc['bsp'])
-                    with contextlib.redirect_stdout(io.StringIO()):
-                        b.save(dest)
+                    brk = sc.get('bsp_break')
+                    if brk:
+                        bsp_break(b, brk)
+                    try:
+                        with contextlib.redirect_stdout(io.StringIO()):
+                            b.save(dest)
+                    except Exception as e:
+                        if brk and type(e).__name__ == BSP_BREAKS[brk]:
+                            raise BodyError() from e      # the failure this scenario provokes
+                        raise
                 finally:
                     bspmod.AtomicWriter = real
             else:
@@ -399,7 +453,7 @@ class NameMap:
     def __init__(self, sc: dict, dests: list[str] | None = None) -> None:
         dests = dests or [sc['dest']]
         self.dir = os.path.dirname(dests[0])
-        self.files: list[str] = [os.path.basename(d) for d in dests]
+        self.files: list[str] = list(dict.fromkeys(os.path.basename(d) for d in dests))
         for name in sorted(sc['init']):
             if os.path.dirname(name) != self.dir:
                 continue
@@ -462,10 +516,17 @@ RES = {'ok': 0, 'exist': 1, 'noent': 2, 'fault': 3}
 
 
 def canon_events(ops: list[dict], nm: NameMap, wtok: Callable[[int, dict], int]) -> tuple[list[list[int]] | None, str]:
+    out, why, _ks = canon_events_k(ops, nm, wtok)
+    return out, why
+
+
+def canon_events_k(ops: list[dict], nm: NameMap, wtok: Callable[[int, dict], int]
+                   ) -> tuple[list[list[int]] | None, str, list[int]]:
     """Real operations of ONE writer -> model events [kind, i, arg, res]; None + reason if an operation is outside
     the model.  After the first failure or body exception, raw writes (flush retries inside close) are merged into
     the close that follows them."""
     out: list[list[int]] = []
+    ks: list[int] = []       # global number of the real operation each model event stands for
     broken = False       # a failure happened or the body raised
     pend_fault = False
     nwrite = 0
@@ -499,11 +560,12 @@ def canon_events(ops: list[dict], nm: NameMap, wtok: Callable[[int, dict], int])
         elif o['op'] == 'unlink' and ti is not None:
             ev = [5, ti, 0, RES[o['res']]]
         else:
-            return None, f"operation outside the model: {o['op']} {o['name']} {o.get('mode', '')}{o.get('dst', '')}"
+            return None, f"operation outside the model: {o['op']} {o['name']} {o.get('mode', '')}{o.get('dst', '')}", []
         if ev[3] == 3:
             broken = True
         out.append(ev)
-    return out, ''
+        ks.append(o['k'])
+    return out, '', ks
 
 
 def coq_scen(dest_idx: int, body: list[int], tail: list[int], raise_at: int | None) -> str:
@@ -527,6 +589,28 @@ def single_campaign(ck: Ck, scs: list[dict], do_model: bool) -> None:
     work = ck.scratch / 'c12_single'
     cases: list[dict] = []        # model cases to evaluate: {'coq':..., 'check': fn(result)}
     for si, sc in enumerate(scs):
+        _single_scenario(ck, work, si, sc, do_model, cases)
+    if do_model:
+        eval_cases(ck, cases, 'single')
+
+
+class _Keyed:
+    """ck with violation keys prefixed for one scenario class (BSP.save scenarios get their own keys and replays)."""
+
+    def __init__(self, ck: Ck, prefix: str, flag: str) -> None:
+        self._ck, self._prefix, self._flag = ck, prefix, flag
+
+    def __getattr__(self, name: str) -> Any:
+        return getattr(self._ck, name)
+
+    def violation(self, key: str, what: str, replay: Any, no_input: bool = False) -> None:
+        self._ck.extra[self._flag] = self._ck.extra.get(self._flag, 0) + 1
+        self._ck.violation(self._prefix + key, what, replay, no_input)
+
+
+def _single_scenario(ck0: Ck, work: Path, si: int, sc: dict, do_model: bool, cases: list[dict]) -> None:
+    ck: Any = _Keyed(ck0, 'bsp-save:', 'bsp_violations') if sc.get('bsp') else ck0
+    if True:
         def fresh(tag: str) -> str:
             d = str(work / f's{si}_{tag}')
             shutil.rmtree(d, ignore_errors=True)
@@ -545,7 +629,8 @@ def single_campaign(ck: Ck, scs: list[dict], do_model: bool) -> None:
         old = sc['init'].get(sc['dest'])
         init_names = set(sc['init'])
         patho = NameMap.tmp_index(os.path.basename(sc['dest'])) is not None
-        raising = sc.get('raise_after') is not None
+        raising = sc.get('raise_after') is not None or bool(sc.get('bsp_break'))
+        pre_fail = sc.get('bsp_break') == 'rebuild-raises'     # BSP.save fails before the writer is entered
         ck.hist('scenario_ops', len(ops0))
         ck.hist('scenario_kind', sc['kind'])
         # ---- oracle on the fault-free run
@@ -554,9 +639,14 @@ def single_campaign(ck: Ck, scs: list[dict], do_model: bool) -> None:
         if base['outcome'] != exp_out:
             ck.violation(f'unexpected-outcome:{sc["kind"]}', f'fault-free run ended with {base["outcome"]}',
                          {'scenario': sc_json(sc), 'outcome': base['outcome']})
-            continue
+            return
         if raising:
             new = old
+            if base['listing'].get(sc['dest']) != old:
+                ck.violation('dest-changed-after-body-exception',
+                             f'the write was abandoned by an exception but the destination holds '
+                             f'{base["listing"].get(sc["dest"])!r:.60} instead of the previous {old!r:.40}',
+                             replay_obj('fault', sc, k=0))
         elif sc.get('expect') is not None and new != sc['expect']:
             ck.violation(f'wrong-content:{sc["kind"]}', 'destination does not hold what the body wrote',
                          {'scenario': sc_json(sc)})
@@ -564,6 +654,23 @@ def single_campaign(ck: Ck, scs: list[dict], do_model: bool) -> None:
         if left:
             ck.violation(f'temp-left-after-{"body-exception" if raising else "success"}',
                          f'files {sorted(left)} left after a fault-free run', {'scenario': sc_json(sc)})
+        # the temp-name loop: attempts tmp_1, tmp_2, ... in order, stops at the least free index, creates only that one
+        opens = [(o['name'], o['res']) for o in ops0 if o['op'] == 'open']
+        if opens and not patho:
+            ddir = os.path.dirname(sc['dest'])
+            j = 1
+            while os.path.join(ddir, f'tmp_{j}') in init_names:
+                j += 1
+            exp_opens = [(os.path.join(ddir, f'tmp_{i}'), 'exist') for i in range(1, j)] + [(os.path.join(ddir, f'tmp_{j}'), 'ok')]
+            if opens != exp_opens:
+                ck.violation('temp-name-loop:not-the-least-free-index',
+                             f'open attempts {opens[:6]}{"..." if len(opens) > 6 else ""} (total {len(opens)}), expected '
+                             f'tmp_1..tmp_{j} with only the last one succeeding', replay_obj('fault', sc, k=0))
+            ck.hist('open_attempts', len(opens))
+        if pre_fail and ops0:
+            ck.violation('fs-operation-before-save-entered-the-writer',
+                         f'BSP.save failed while rebuilding lumps but had already performed {[(o["op"], o["name"]) for o in ops0]}',
+                         replay_obj('fault', sc, k=0))
         # write tokens of the fault-free trace
         writes0 = [o for o in ops0 if o['op'] == 'write']
         wmap = {j + 1: (o['off'], o['data']) for j, o in enumerate(writes0)}
@@ -594,9 +701,14 @@ def single_campaign(ck: Ck, scs: list[dict], do_model: bool) -> None:
                     ck.obligation(name, False, what.get('why', 'operation outside the model'))
                     ck.tie_broken.append('correspondence AtomicWriter trace: ' + what.get('why', ''))
                 return
-            coq = (f'corr_case aw_cfg {nm.coq_init()} {scen_coq} {cut} {coq_list(map(str, faults))} '
+            # pre_ok = false: BSP.save's rebuild phase raises, the writer is never entered (save_alone in the model)
+            coq = (f'corr_case_t aw_proto {"false" if pre_fail else "true"} {nm.coq_init()} {scen_coq} {cut} '
+                   f'{coq_list(map(str, faults))} '
                    f'{coq_list(nm.probe_names(max_tmp))}')
+            if pre_fail:
+                real_committed = None       # the writer never starts: there is no outcome of a `with` to compare
             cases.append(dict(coq=coq, events=real_events, listing=real_listing, committed=real_committed, nm=nm,
+                              replaced=any(e[0] == 4 and e[3] == 0 for e in real_events),
                               wmap=wmap, max_tmp=max_tmp, what=what, cmp_tmp=cmp_tmp_content, sc=sc))
 
         if ev0 is None and not patho:
@@ -685,8 +797,36 @@ def single_campaign(ck: Ck, scs: list[dict], do_model: bool) -> None:
             fidx = [i for i, e in enumerate(evf or []) if e[3] == 3]
             add_case(len(r['ops']) + 5, fidx[:1], evf, lst, committed,
                      {'run': f'OSError at op {k} ({at})', 'scenario': sc_json(sc), 'why': whyf}, False)
-    if do_model:
-        eval_cases(ck, cases, 'single')
+            # ---- a second OSError at every operation that follows the first one (the cleanup of the cleanup):
+            # exercises the second level of the decision trees (close fails AND unlink fails, rename fails AND ...)
+            if sc.get('bsp') and not escalated(ck):
+                continue
+            for o2 in [x for x in r['ops'] if x['k'] > k and x['inj']]:
+                k2 = o2['k']
+                r2 = run_single(sc, fresh('fault2'), fault_at=frozenset((k, k2)))
+                hit2 = [x for x in r2['ops'] if x['res'] == 'fault']
+                if len(hit2) < 2:
+                    continue
+                ck.count('double_fault_points_executed')
+                at2 = f'{at}+{op_label(o2)}'
+                ck.seen(('fault2', sc['kind'], sc.get('bufsize'), k, k2))
+                ck.hist('double_fault_ops', at2)
+                lst2 = r2['listing']
+                rp2 = replay_obj('fault', sc, k=[k, k2])
+                if r2['outcome'] == 'ok' or r2['outcome'].startswith('other'):
+                    ck.violation(f'unexpected-outcome-after-two-faults:{at2}', r2['outcome'], rp2)
+                if lst2.get(sc['dest']) != old:
+                    ck.violation('dest-named-like-temp-file' if patho else f'dest-changed-after-two-faults:{at2}',
+                                 f'OSErrors injected into operations {k} and {k2}; destination holds '
+                                 f'{lst2.get(sc["dest"])!r:.60} instead of the previous {old!r:.40}', rp2)
+                if (set(lst2) - init_names - {sc['dest']}) and not any(x['op'] == 'unlink' for x in hit2):
+                    ck.violation(f'temp-left-after-two-faults:{at2}', f'{sorted(set(lst2) - init_names - {sc["dest"]})} left', rp2)
+                for n0, v0 in sc['init'].items():
+                    if n0 != sc['dest'] and lst2.get(n0) != v0:
+                        ck.violation(f'foreign-file-touched-after-two-faults:{at2}', f'{n0} changed', rp2)
+                ev2, why2 = canon_events(r2['ops'], nm, wtok)
+                add_case(len(r2['ops']) + 5, [i for i, e in enumerate(ev2 or []) if e[3] == 3], ev2, lst2, False,
+                         {'run': f'OSErrors at ops {k} ({at}) and {k2}', 'scenario': sc_json(sc), 'why': why2}, False)
 
 
 def eval_cases(ck: Ck, cases: list[dict], tag: str) -> None:
@@ -709,9 +849,11 @@ def eval_cases(ck: Ck, cases: list[dict], tag: str) -> None:
             diffs = []
             if c['events'] is not None and events != c['events']:
                 diffs.append({'events_model': events, 'events_real': c['events']})
-            if c['committed'] is not None:
-                if (pc[0] == 1) != c['committed']:
-                    diffs.append({'model_pc': pc, 'real_committed': c['committed']})
+            if c['committed'] is not None:        # a finished run (not a kill): outcome of the `with` statement
+                if (pc[0] == 1) != c['replaced']:
+                    diffs.append({'model_pc': pc, 'real_rename_succeeded': c['replaced']})
+                if (pc[2] == 1) != (not c['committed']):
+                    diffs.append({'model_pc': pc, 'model_raises': pc[2] == 1, 'real_returned_normally': c['committed']})
             for b, enc in zip(nm.probe_bases(c['max_tmp']), probes):
                 toks = opt_content(enc)
                 real = c['listing'].get(os.path.join(nm.dir, b) if nm.dir else b)
@@ -760,10 +902,19 @@ def scenarios(ck: Ck) -> list[dict]:
     add('unbuffered', chunks=c3, bufsize=1)
     add('small-buffer', chunks=c3 + [b'DDDDDDDD'], bufsize=6)
     add('stale-temp', chunks=c3, bufsize=1, init={'out.bin': OLD, 'tmp_1': b'STALE1', 'tmp_2': b'STALE2', 'keep.txt': b'k'})
+    many = 60 if is_big(ck) else 12
+    add(f'stale-temps-1-to-{many}', chunks=c3[:2], bufsize=1,
+        init={'out.bin': OLD, 'keep.txt': b'k', **{f'tmp_{i}': b'STALE%d' % i for i in range(1, many + 1)}})
+    add('stale-temps-with-gap', chunks=c3[:2], bufsize=8192,
+        init={'out.bin': OLD, 'tmp_1': b'S1', 'tmp_2': b'S2', 'tmp_4': b'S4', 'tmp_5': b'S5', 'tmp_03': b'not-a-temp-name'})
+    add('stale-temps-raise', chunks=c3, bufsize=1, raise_after=1,
+        init={'out.bin': OLD, **{f'tmp_{i}': b'STALE%d' % i for i in range(1, 7)}})
     add('new-file', chunks=c3, bufsize=6, init={'keep.txt': b'keep'})
     add('new-subdir', chunks=c3, dest='sub/dir/out.bin', init={'keep.txt': b'keep'})
     add('empty-body', chunks=[])
     add('text', chunks=['héllo\n', 'wörld\n'], text=True, encoding='utf16', bufsize=4)
+    add('text-stale-temp', chunks=['ab\n', 'cd\n'], text=True, encoding='utf8', bufsize=8192,
+        init={'out.bin': OLD, 'tmp_1': b'STALE1', 'tmp_2': b'STALE2', 'keep.txt': b'k'})
     for ra in (0, 1, 3):
         add(f'raise-after-{ra}', chunks=c3, bufsize=1, raise_after=ra)
     add('raise-buffered', chunks=c3, raise_after=2)
@@ -787,19 +938,36 @@ def scenarios(ck: Ck) -> list[dict]:
 def bsp_scenarios(ck: Ck) -> list[dict]:
     src = small_bsp(ck.scratch)
     out = []
+    full = {'maps/test.bsp': b'OLD-BSP-CONTENT', 'maps/other.bsp': b'other', 'maps/tmp_1': b'STALE1'}
+    fresh = {'maps/other.bsp': b'other', 'maps/tmp_1': b'STALE1'}        # "save as": the destination does not exist yet
     for bs in ([256, 1024, 8192] if is_big(ck) else [512]):
-        out.append(dict(kind=f'bsp-save-buf{bs}', dest='maps/test.bsp', bsp=src, bufsize=bs,
-                        init={'maps/test.bsp': b'OLD-BSP-CONTENT', 'maps/other.bsp': b'other', 'maps/tmp_1': b'STALE1'}))
+        out.append(dict(kind=f'bsp-save-buf{bs}', dest='maps/test.bsp', bsp=src, bufsize=bs, init=full))
+    for bs in ([64, 512, 8192] if is_big(ck) else [512]):
+        out.append(dict(kind=f'bsp-save-fresh-path-buf{bs}', dest='maps/test.bsp', bsp=src, bufsize=bs, init=fresh))
+        # the body of the `with` raises after some lumps have been written (a lump holds a str)
+        out.append(dict(kind=f'bsp-save-fresh-path-body-raises-buf{bs}', dest='maps/test.bsp', bsp=src, bufsize=bs,
+                        init=fresh, bsp_break='lump-data-str'))
+    out.append(dict(kind='bsp-save-body-raises', dest='maps/test.bsp', bsp=src, bufsize=64, init=full,
+                    bsp_break='lump-data-str'))
+    out.append(dict(kind='bsp-save-fresh-path-no-version', dest='maps/test.bsp', bsp=src, bufsize=512, init=fresh,
+                    bsp_break='version-none'))
+    out.append(dict(kind='bsp-save-new-directory', dest='newdir/maps/test.bsp', bsp=src, bufsize=8192, init={'keep.txt': b'k'}))
+    # the rebuild phase raises: the writer is never entered, nothing may happen in the directory
+    out.append(dict(kind='bsp-save-rebuild-raises', dest='maps/test.bsp', bsp=src, bufsize=512, init=full,
+                    bsp_break='rebuild-raises'))
+    out.append(dict(kind='bsp-save-fresh-path-rebuild-raises', dest='maps/test.bsp', bsp=src, bufsize=512, init=fresh,
+                    bsp_break='rebuild-raises'))
     return out
 
 
 # =============================================================================================== two writers
-def run_two(scs: tuple[dict, dict], root: str, prefix: list[int], init: dict[str, bytes]):
-    """Run two writers in threads under the schedule `prefix` (then: lowest unfinished writer first)."""
+def run_two(scs: tuple[dict, dict], root: str, prefix: list[int], init: dict[str, bytes], fault_at: int | None = None):
+    """Run two writers in threads under the schedule `prefix` (then: lowest unfinished writer first); `fault_at` = k
+    injects an OSError into the k-th file-system operation of the whole run (whoever performs it)."""
     shutil.rmtree(root, ignore_errors=True)
     populate(root, {'init': init})
     sched = Sched(2)
-    sim = FsSim(root, 1, None, None, sched)
+    sim = FsSim(root, 1, fault_at, None, sched)
     outcomes = ['ok', 'ok']
     executed: list[int] = []
     enabled: list[list[int]] = []
@@ -840,99 +1008,187 @@ def run_two(scs: tuple[dict, dict], root: str, prefix: list[int], init: dict[str
     return dict(ops=sim.ops, outcomes=outcomes, executed=executed, enabled=enabled, listing=listing(root))
 
 
-def two_writer_campaign(ck: Ck, do_model: bool) -> None:
-    work = str(ck.scratch / 'c12_two')
-    big = is_big(ck)
-    pairs = [
-        # (tag, writer A, writer B, initial directory, schedule limit)
-        ('plain', dict(dest='a.bin', chunks=[b'A1']), dict(dest='b.bin', chunks=[b'B1']),
-         {'a.bin': b'OLDA', 'b.bin': b'OLDB', 'keep.txt': b'k'}, 5000),
-        ('stale+raise', dict(dest='a.bin', chunks=[b'A1']), dict(dest='b.bin', chunks=[b'B1', b'B2'], raise_after=1),
-         {'a.bin': b'OLDA', 'tmp_1': b'STALE1', 'keep.txt': b'k'}, 5000 if big else 200),
-    ]
-    if big:
-        pairs.append(('two-chunks', dict(dest='a.bin', chunks=[b'A1', b'A2']), dict(dest='b.bin', chunks=[b'B1', b'B2']),
-                      {'a.bin': b'OLDA', 'b.bin': b'OLDB', 'tmp_2': b'STALE2'}, 6000))
-    cases: list[dict] = []
-    for tag, sa, sb, init, limit in pairs:
-        nm = NameMap({'init': init, 'dest': sa['dest']}, dests=[sa['dest'], sb['dest']])
+class Pair:
+    """Two writers (scenario dicts) in one directory, with the token numbering / names the model cases need."""
+
+    def __init__(self, tag: str, sa: dict, sb: dict, init: dict[str, bytes]) -> None:
+        self.tag, self.sa, self.sb, self.init = tag, sa, sb, init
+        self.nm = NameMap({'init': init, 'dest': sa['dest']}, dests=[sa['dest'], sb['dest']])
         # token numbering: writer w's j-th chunk is token 10*(w+1)+j
         toks = [[10 * (w + 1) + j + 1 for j in range(len(s['chunks']) if s.get('raise_after') is None else s['raise_after'])]
                 for w, s in enumerate((sa, sb))]
-        wmap: dict[int, tuple[int, bytes]] = {}
+        self.wmap: dict[int, tuple[int, bytes]] = {}
         for w, s in enumerate((sa, sb)):
             off = 0
             for j, ch in enumerate(s['chunks']):
-                wmap[10 * (w + 1) + j + 1] = (off, ch)
+                self.wmap[10 * (w + 1) + j + 1] = (off, ch)
                 off += len(ch)
-        scen = [coq_scen(w, toks[w], [], s.get('raise_after')) for w, s in enumerate((sa, sb))]
-        new = [b''.join(s['chunks']) if s.get('raise_after') is None else init.get(s['dest']) for s in (sa, sb)]
-        stack: list[list[int]] = [[]]
+        self.scen = [coq_scen(self.nm.files.index(os.path.basename(s['dest'])), toks[w], [], s.get('raise_after'))
+                     for w, s in enumerate((sa, sb))]
+        self.new = [b''.join(s['chunks']) if s.get('raise_after') is None else init.get(s['dest']) for s in (sa, sb)]
+        self.same_dest = sa['dest'] == sb['dest']
+        self.max_tmp = max([NameMap.tmp_index(b) or 0 for b in init] + [0]) + 3
+
+
+def two_check(ck: Ck, P: Pair, r: dict, fault_at: int | None, do_model: bool, cases: list[dict], how: str) -> None:
+    """Oracle on one executed two-writer run (possibly with one injected OSError) + its model case."""
+    sa, sb, init, nm = P.sa, P.sb, P.init, P.nm
+    lst = r['listing']
+    ex = r['executed']
+    hit = [o for o in r['ops'] if o['res'] == 'fault']
+    fw = hit[0]['w'] if hit else None            # the writer that got the OSError
+    rp = replay_obj('two', dict(kind=P.tag, init=init, dest=sa['dest']), a=_hexsc(sa), b=_hexsc(sb), schedule=ex,
+                    **({'fault_at': fault_at} if fault_at is not None else {}))
+    sfx = '-with-fault' if hit else ''
+    if P.same_dest:
+        # same destination: the last successful rename decides; the content must be complete (old / all of A / all of B)
+        last = [o['w'] for o in r['ops'] if o['op'] == 'replace' and o['res'] == 'ok']
+        exp = b''.join((sa, sb)[last[-1]]['chunks']) if last else init.get(sa['dest'])
+        if lst.get(sa['dest']) != exp:
+            ck.violation('two-writers:same-destination-wrong-content' + sfx,
+                         f'{sa["dest"]} holds {lst.get(sa["dest"])!r:.40}, expected {exp!r:.40} (renames by {last})', rp)
+    for w, s in enumerate((sa, sb)):
+        if P.same_dest and w != fw:
+            exp_out = 'ok' if s.get('raise_after') is None else 'body'
+            if r['outcomes'][w] != exp_out:
+                ck.violation('two-writers:unexpected-outcome' + sfx, f'writer {w} ended with {r["outcomes"][w]}', rp)
+            continue
+        if P.same_dest:
+            if r['outcomes'][w] == 'ok' or r['outcomes'][w].startswith('other'):
+                ck.violation('two-writers:unexpected-outcome-with-fault',
+                             f'writer {w} got an OSError in {hit[0]["op"]} but ended with {r["outcomes"][w]}', rp)
+            continue
+        exp_out = 'ok' if s.get('raise_after') is None else 'body'
+        if w == fw:
+            if r['outcomes'][w] == 'ok' or r['outcomes'][w].startswith('other'):
+                ck.violation('two-writers:unexpected-outcome-with-fault',
+                             f'writer {w} got an OSError in {hit[0]["op"]} but ended with {r["outcomes"][w]}', rp)
+            if lst.get(s['dest']) != init.get(s['dest']):
+                ck.violation('two-writers:dest-changed-after-fault',
+                             f'writer {w} failed ({hit[0]["op"]}) but {s["dest"]} holds {lst.get(s["dest"])!r:.40}', rp)
+            continue
+        if r['outcomes'][w] != exp_out:
+            ck.violation('two-writers:unexpected-outcome' + sfx, f'writer {w} ended with {r["outcomes"][w]}', rp)
+        if lst.get(s['dest']) != P.new[w]:
+            ck.violation('two-writers:destination-clobbered' + sfx, f'{s["dest"]} holds {lst.get(s["dest"])!r:.40}, '
+                         f'expected {P.new[w]!r:.40}', rp)
+    extra = set(lst) - set(init) - {sa['dest'], sb['dest']}
+    if extra and not (hit and hit[0]['op'] == 'unlink'):
+        ck.violation('two-writers:temp-left' + sfx, f'{sorted(extra)} left', rp)
+    for n0, v0 in init.items():
+        if n0 not in (sa['dest'], sb['dest']) and lst.get(n0) != v0:
+            ck.violation('two-writers:foreign-file-touched' + sfx, f'{n0} changed', rp)
+    # temp names held at the same time must differ
+    held: dict[int, str] = {}
+    for o in r['ops']:
+        if o['op'] == 'open' and o['res'] == 'ok':
+            if o['name'] in held.values():
+                ck.violation('two-writers:same-temp-name', f'{o["name"]} opened by both writers', rp)
+            held[o['w']] = o['name']
+        elif o['op'] in ('replace', 'unlink') and o['res'] == 'ok':
+            held.pop(o['w'], None)
+    if not do_model:
+        return
+    # ---- model case: canonicalise each writer's operations (merging as for one writer), then order by time
+    merged: list[tuple[int, int, list[int]]] = []
+    okc = True
+    for w in (0, 1):
+        def wtok(n: int, oo: dict, w: int = w) -> int:
+            t = 10 * (w + 1) + n
+            return t if P.wmap.get(t) == (oo['off'], oo['data']) else 0
+        evs, _why, ks = canon_events_k([o for o in r['ops'] if o['w'] == w], nm, wtok)
+        if evs is None:
+            okc = False
+            break
+        merged += [(k, w, e) for k, e in zip(ks, evs)]
+    merged.sort()
+    sched = coq_list(f'({"true" if w else "false"}, {"true" if e[3] == 3 else "false"})' for _k, w, e in merged)
+    coq = (f'corr_case2_t aw_proto {nm.coq_init()} {P.scen[0]} {P.scen[1]} {sched} '
+           f'{coq_list(nm.probe_names(P.max_tmp))}')
+    cases.append(dict(coq=coq, events=[[w] + e for _k, w, e in merged] if okc else None, listing=lst, nm=nm,
+                      wmap=P.wmap, max_tmp=P.max_tmp, what={'run': how, 'pair': P.tag, 'schedule': ex, 'fault_at': fault_at},
+                      committed=[x == 'ok' for x in r['outcomes']], cleanup_fault=bool(hit and hit[0]['op'] == 'unlink')))
+
+
+def two_writer_campaign(ck: Ck, do_model: bool) -> None:
+    work = str(ck.scratch / 'c12_two')
+    big = is_big(ck)
+    cap = (lambda n: n) if ck.thorough else (lambda n: min(n, 1000))     # a broken tie in the quick tier: capped DFS
+    A1 = dict(dest='a.bin', chunks=[b'A1'])
+    pairs = [
+        # (pair, limit of the exhaustive DFS over schedules; 0 = only boundary pairs)
+        (Pair('plain', A1, dict(dest='b.bin', chunks=[b'B1']), {'a.bin': b'OLDA', 'b.bin': b'OLDB', 'keep.txt': b'k'}), 5000),
+        (Pair('stale+raise', A1, dict(dest='b.bin', chunks=[b'B1', b'B2'], raise_after=1),
+              {'a.bin': b'OLDA', 'tmp_1': b'STALE1', 'keep.txt': b'k'}), 5000 if big else 40),
+        (Pair('two-chunks', dict(dest='a.bin', chunks=[b'A1', b'A2']), dict(dest='b.bin', chunks=[b'B1', b'B2']),
+              {'a.bin': b'OLDA', 'b.bin': b'OLDB', 'tmp_2': b'STALE2'}), 6000 if big else 0),
+        (Pair('fresh+stale-gap', dict(dest='a.bin', chunks=[b'A1', b'A2', b'A3']), dict(dest='b.bin', chunks=[]),
+              {'tmp_1': b'S1', 'tmp_3': b'S3', 'keep.txt': b'k'}), 0),
+        (Pair('same-destination', dict(dest='a.bin', chunks=[b'A1', b'A2']), dict(dest='a.bin', chunks=[b'B1']),
+              {'a.bin': b'OLDA', 'keep.txt': b'k', 'tmp_1': b'S1'}), 3000 if big else 0),
+        (Pair('both-raise', dict(dest='a.bin', chunks=[b'A1', b'A2'], raise_after=2), dict(dest='b.bin', chunks=[b'B1'], raise_after=0),
+              {'a.bin': b'OLDA', 'b.bin': b'OLDB'}), 0),
+    ]
+    cases: list[dict] = []
+    for P, limit in pairs:
+        tag = P.tag
+        seen_sched: set[tuple[int, ...]] = set()
+        # ---- every interleaving (DFS over schedules), up to `limit` runs
+        limit = cap(limit)
+        stack: list[list[int]] = [[]] if limit else []
         nrun = 0
         while stack and nrun < limit:
             prefix = stack.pop()
-            r = run_two((sa, sb), work, prefix, init)
+            r = run_two((P.sa, P.sb), work, prefix, P.init)
             nrun += 1
             ck.count('interleavings_executed')
             ex = r['executed']
+            seen_sched.add(tuple(ex))
             ck.seen(('two', tag, tuple(ex)))
             ck.hist('interleaving_len', len(ex))
             for j in range(len(prefix), len(ex)):
                 other = 1 - ex[j]
                 if other in r['enabled'][j]:
                     stack.append(ex[:j] + [other])
-            # ---- oracle
-            lst = r['listing']
-            rp = replay_obj('two', dict(kind=tag, init=init, dest=sa['dest']), a=_hexsc(sa), b=_hexsc(sb), schedule=ex)
-            for w, s in enumerate((sa, sb)):
-                exp_out = 'ok' if s.get('raise_after') is None else 'body'
-                if r['outcomes'][w] != exp_out:
-                    ck.violation(f'two-writers:unexpected-outcome', f'writer {w} ended with {r["outcomes"][w]}', rp)
-                if lst.get(s['dest']) != new[w]:
-                    ck.violation('two-writers:destination-clobbered', f'{s["dest"]} holds {lst.get(s["dest"])!r:.40}, '
-                                 f'expected {new[w]!r:.40}', rp)
-            extra = set(lst) - set(init) - {sa['dest'], sb['dest']}
-            if extra:
-                ck.violation('two-writers:temp-left', f'{sorted(extra)} left', rp)
-            for n0, v0 in init.items():
-                if n0 not in (sa['dest'], sb['dest']) and lst.get(n0) != v0:
-                    ck.violation('two-writers:foreign-file-touched', f'{n0} changed', rp)
-            # temp names held at the same time must differ
-            held: dict[int, str] = {}
-            for o in r['ops']:
-                if o['op'] == 'open' and o['res'] == 'ok':
-                    if o['name'] in held.values():
-                        ck.violation('two-writers:same-temp-name', f'{o["name"]} opened by both writers', rp)
-                    held[o['w']] = o['name']
-                elif o['op'] in ('replace', 'unlink') and o['res'] == 'ok':
-                    held.pop(o['w'], None)
-            # ---- model case
-            if do_model:
-                evs = []
-                okc = True
-                cnt = [0, 0]
-                for o in r['ops']:
-                    w = o['w']
-
-                    def wtok(n: int, oo: dict, w=w) -> int:
-                        t = 10 * (w + 1) + n
-                        return t if wmap.get(t) == (oo['off'], oo['data']) else 0
-                    # canonicalise this single op in the context of its writer (no faults here: no merging needed
-                    # except flush writes after a body exception, which bufsize=1 excludes)
-                    if o['op'] == 'write':
-                        cnt[w] += 1
-                    e, why = canon_events([o], nm, lambda n, oo, w=w: wtok(cnt[w], oo))
-                    if e is None:
-                        okc = False
-                        break
-                    evs.append([w] + e[0])
-                max_tmp = 4
-                coq = (f'corr_case2 aw_cfg {nm.coq_init()} {scen[0]} {scen[1]} '
-                       f'{coq_list(f"({"true" if w else "false"}, false)" for w in ex)} {coq_list(nm.probe_names(max_tmp))}')
-                cases.append(dict(coq=coq, events=evs if okc else None, listing=lst, nm=nm, wmap=wmap, max_tmp=max_tmp,
-                                  what={'run': 'two writers', 'pair': tag, 'schedule': ex},
-                                  committed=[x == 'ok' for x in r['outcomes']]))
-        ck.extra.setdefault('interleavings', {})[tag] = {'executed': nrun, 'exhaustive': not stack}
+            two_check(ck, P, r, None, do_model, cases, 'two writers, DFS over schedules')
+        exhaustive = bool(limit) and not stack
+        # ---- every pair of operation boundaries: writer A has completed k1 operations and writer B k2, reached both
+        # as A^k1 B^k2 and as B^k2 A^k1 (then the rest sequentially); redundant when the DFS was exhaustive
+        seq = run_two((P.sa, P.sb), work, [], P.init)
+        n1 = sum(1 for w in seq['executed'] if w == 0)
+        n2 = sum(1 for w in seq['executed'] if w == 1)
+        npairs = 0
+        if not exhaustive:
+            for k1 in range(n1 + 1):
+                for k2 in range(n2 + 1):
+                    # quick tier: the mirrored order only for every other pair (the DFS / the theorem cover all)
+                    for prefix in ([[0] * k1 + [1] * k2, [1] * k2 + [0] * k1] if big or (k1 + k2) % 2
+                                   else [[0] * k1 + [1] * k2]):
+                        r = run_two((P.sa, P.sb), work, prefix + [1, 0] * 3, P.init)
+                        if tuple(r['executed']) in seen_sched:
+                            continue
+                        seen_sched.add(tuple(r['executed']))
+                        ck.count('boundary_pair_runs')
+                        ck.seen(('two-bp', tag, tuple(r['executed'])))
+                        two_check(ck, P, r, None, do_model, cases, f'two writers, boundary pair ({k1},{k2})')
+                    npairs += 1
+        # ---- one injected OSError at every operation of some schedules (sequential both ways, alternating, random)
+        nfault = 0
+        scheds = [[], [1] * 40, [0, 1] * 20, [1, 0] * 20] + [[ck.rng.randrange(2) for _ in range(40)]
+                                                            for _ in range(budget(ck, 2, 8))]
+        for sc_i, prefix in enumerate(scheds if (limit or big) else [scheds[0], scheds[2]]):
+            n_ops = len(run_two((P.sa, P.sb), work, prefix, P.init)['ops'])
+            for k in range(1, n_ops + 1):
+                r = run_two((P.sa, P.sb), work, prefix, P.init, fault_at=k)
+                if not any(o['res'] == 'fault' for o in r['ops']):
+                    continue            # not an injectable operation (mkdir of an existing directory)
+                nfault += 1
+                ck.count('two_writer_fault_runs')
+                ck.seen(('two-fault', tag, sc_i, k))
+                ck.hist('two_writer_fault_op', next(o['op'] for o in r['ops'] if o['res'] == 'fault'))
+                two_check(ck, P, r, k, do_model, cases, f'two writers, OSError at operation {k}')
+        ck.extra.setdefault('interleavings', {})[tag] = {
+            'executed': nrun, 'exhaustive': exhaustive, 'boundary_pairs': npairs, 'ops': [n1, n2], 'fault_runs': nfault}
     if do_model and cases:
         eval_cases2(ck, cases)
 
@@ -960,11 +1216,19 @@ def eval_cases2(ck: Ck, cases: list[dict]) -> None:
             diffs = []
             if c['events'] is None or events != c['events']:
                 diffs.append({'events_model': events, 'events_real': c['events']})
-            if [(pc1[0] == 1), (pc2[0] == 1)] != c['committed']:
-                diffs.append({'model_pcs': [pc1, pc2], 'real_committed': c['committed']})
+            replaced = [any(e[0] == w and e[1] == 4 and e[4] == 0 for e in (c['events'] or [])) for w in (0, 1)]
+            if [(pc1[0] == 1), (pc2[0] == 1)] != replaced or [(pc1[2] == 0), (pc2[2] == 0)] != c['committed']:
+                diffs.append({'model_pcs': [pc1, pc2], 'real_rename_succeeded': replaced,
+                              'real_returned_normally': c['committed']})
             for b, enc in zip(nm.probe_bases(c['max_tmp']), probes):
-                exp = nm.expect_bytes(opt_content(enc), c['wmap'])
+                toks = opt_content(enc)
                 real = c['listing'].get(b)
+                if c.get('cleanup_fault') and NameMap.tmp_index(b) is not None and b not in nm.init:
+                    # a temp file left by a failing cleanup unlink: presence is compared, its (partial) bytes are not
+                    if (toks is None) != (real is None):
+                        diffs.append({'name': b, 'model_present': toks is not None, 'real_present': real is not None})
+                    continue
+                exp = nm.expect_bytes(toks, c['wmap'])
                 if exp != real:
                     diffs.append({'name': b, 'model': repr(exp)[:60], 'real': repr(real)[:60]})
             if diffs:
@@ -976,19 +1240,370 @@ def eval_cases2(ck: Ck, cases: list[dict]) -> None:
         ck.extra['two_disagreements'] = bad[:5]
 
 
+# =============================================================================================== interpreter vs CPython
+# The symbolic interpreter of SM/AtomicExit.v (exec / exit_tree) and the transliteration in translate/c12_atomic.py are
+# hand-written semantics of a Python subset.  They are tied to CPython here: random `__exit__` bodies in that subset
+# (nested try/except/else/finally, returns inside try/finally, bare and explicit raise, aliases that may be None,
+# tuple assignment, suppress) are (1) executed by CPython against mock objects whose close/replace/unlink follow an
+# oracle of results, (2) transliterated by the translator and walked in the kernel with the same oracle.  The calls
+# performed, their results and how the function ends (returns / raises or lets the body's exception through) must agree.
+class _Orc:
+    def __init__(self, results: list[int]) -> None:
+        self.results, self.pos, self.log = results, 0, []
+
+    def next(self, op: int) -> int:
+        r = self.results[self.pos] if self.pos < len(self.results) else 0
+        self.pos += 1
+        if op == 0:
+            r = 1 if r == 1 else 0
+        self.log.append([op, r])
+        return r
+
+
+class _MockTemp:
+    def __init__(self, orc: _Orc) -> None:
+        self._orc = orc
+
+    def close(self) -> None:
+        if self._orc.next(0) == 1:
+            raise OSError(errno.EIO, 'mock close')
+
+    def __exit__(self, *a: Any) -> None:
+        self.close()
+
+
+class _MockPath:
+    def __init__(self, orc: _Orc) -> None:
+        self._orc = orc
+
+    def replace(self, dst: Any) -> None:
+        r = self._orc.next(1)
+        if r == 1:
+            raise OSError(errno.EIO, 'mock replace')
+        if r == 2:
+            raise FileNotFoundError('mock replace')
+    rename = replace
+
+    def unlink(self, missing_ok: bool = False) -> None:
+        r = self._orc.next(2)
+        if r == 1:
+            raise OSError(errno.EIO, 'mock unlink')
+        if r == 2 and not missing_ok:
+            raise FileNotFoundError('mock unlink')
+
+
+class _MockOs:
+    @staticmethod
+    def replace(a: Any, b: Any) -> None:
+        if a is None:
+            raise TypeError('mock os.replace(None)')
+        a.replace(b)
+    rename = replace
+
+    @staticmethod
+    def unlink(a: Any) -> None:
+        if a is None:
+            raise TypeError('mock os.unlink(None)')
+        a.unlink()
+    remove = unlink
+
+
+def gen_exit_source(rng: Any) -> str:
+    """A random __exit__ in the translator's subset (all locals are bound in a prologue)."""
+    calls = [0]
+
+    def call() -> str:
+        calls[0] += 1
+        T = rng.choice(['self.temp', 't', 't'])
+        N = rng.choice(['self._temp_name', 'n', 'n'])
+        k = rng.randrange(9)
+        if k < 3:
+            return rng.choice([f'{T}.close()', f'{T}.__exit__(exc_type, exc_value, tback)'])
+        if k < 5:
+            return rng.choice([f'{N}.replace(self.filename)', f'os.replace({N}, self.filename)', f'{N}.rename(self.filename)'])
+        return rng.choice([f'{N}.unlink()', f'{N}.unlink(missing_ok=True)', f'os.unlink({N})', f'os.remove({N})',
+                           f'{N}.unlink(missing_ok=False)'])
+
+    def test() -> str:
+        atoms = ['exc_type is None', 'exc_type is not None', 't is not None', 't is None', 'n is None', 'flag', 'not flag',
+                 'done', 'not done', 'exc_value is None', 'self.temp is None', 'flag is True', 'done is not False']
+        a = rng.choice(atoms)
+        if rng.random() < 0.3:
+            a = f'{a} {rng.choice(["and", "or"])} {rng.choice(atoms)}'
+        if rng.random() < 0.1:
+            a = f'not ({a})'
+        return a
+
+    def block(depth: int, ind: str, n: int) -> list[str]:
+        out: list[str] = []
+        for _ in range(n):
+            out += stmt(depth, ind)
+        return out or [ind + 'pass']
+
+    def stmt(depth: int, ind: str) -> list[str]:
+        k = rng.random()
+        if k < 0.30 and calls[0] < 5:
+            return [ind + call()]
+        if k < 0.42:
+            return [ind + rng.choice(['flag = True', 'flag = False', 'done = True', 't = None', 't = self.temp',
+                                      'n = self._temp_name', 'self.temp = None', 't, self.temp = self.temp, None',
+                                      'flag, done = done, True', 'n = None'])]
+        if k < 0.58 and depth < 3:
+            out = [ind + f'if {test()}:'] + block(depth + 1, ind + '    ', rng.choice([1, 1, 2]))
+            if rng.random() < 0.5:
+                out += [ind + 'else:'] + block(depth + 1, ind + '    ', rng.choice([1, 2]))
+            return out
+        if k < 0.80 and depth < 3:
+            out = [ind + 'try:'] + block(depth + 1, ind + '    ', rng.choice([1, 2, 3]))
+            nh = rng.choice([0, 1, 1, 2])
+            fin = rng.random() < 0.55 or nh == 0
+            classes = rng.sample(['OSError', 'FileNotFoundError', 'Exception', '(FileNotFoundError, KeyError)', 'KeyError',
+                                  'BaseException', 'IOError'], nh)
+            if nh and rng.random() < 0.2:
+                classes[-1] = ''
+            for c in classes:
+                out += [ind + (f'except {c}:' if c else 'except:')] + block(depth + 1, ind + '    ', rng.choice([1, 1, 2]))
+            if nh and rng.random() < 0.3:
+                out += [ind + 'else:'] + block(depth + 1, ind + '    ', 1)
+            if fin:
+                out += [ind + 'finally:'] + block(depth + 1, ind + '    ', rng.choice([1, 2]))
+            return out
+        if k < 0.86:
+            return [ind + rng.choice(['return', 'return None', 'return False', 'return True'])]
+        if k < 0.92:
+            return [ind + rng.choice(['raise', 'raise RuntimeError()', 'raise'])]
+        if k < 0.96 and depth < 3:
+            return [ind + 'with suppress(FileNotFoundError):'] + block(depth + 1, ind + '    ', rng.choice([1, 2]))
+        return [ind + 'pass']
+
+    body = ['    t = self.temp', '    n = self._temp_name', '    flag = False', '    done = False']
+    body += block(0, '    ', rng.choice([2, 3, 4, 5]))
+    return 'def __exit__(self, exc_type, exc_value, tback):\n' + '\n'.join(body) + '\n'
+
+
+CORPUS_EXIT = [
+    # the repaired __exit__, the pinned one, the shape of seeded c12_1, and some semantic corner cases
+    """def __exit__(self, exc_type, exc_value, tback):
+    temp, self.temp = self.temp, None
+    committed = False
+    try:
+        if temp is not None:
+            temp.__exit__(exc_type, exc_value, tback)
+        if self._temp_name is None:
+            return None
+        if exc_type is None:
+            self._temp_name.replace(self.filename)
+            committed = True
+    finally:
+        if not committed and self._temp_name is not None:
+            try:
+                self._temp_name.unlink()
+            except FileNotFoundError:
+                pass
+    return None
+""",
+    """def __exit__(self, exc_type, exc_value, tback):
+    if self.temp is not None:
+        self.temp.__exit__(exc_type, exc_value, tback)
+    if self._temp_name is None:
+        return None
+    if exc_type is not None:
+        try:
+            self._temp_name.unlink()
+        except FileNotFoundError:
+            pass
+    else:
+        self._temp_name.replace(self.filename)
+    return None
+""",
+    """def __exit__(self, exc_type, exc_value, tback):
+    try:
+        self.temp.close()
+    finally:
+        if exc_type is None:
+            self._temp_name.replace(self.filename)
+        else:
+            self._temp_name.unlink(missing_ok=True)
+""",
+    """def __exit__(self, exc_type, exc_value, tback):
+    try:
+        try:
+            self.temp.close()
+        finally:
+            return True
+    finally:
+        self._temp_name.unlink()
+""",
+    """def __exit__(self, exc_type, exc_value, tback):
+    try:
+        self._temp_name.replace(self.filename)
+    except OSError:
+        try:
+            self._temp_name.unlink()
+        finally:
+            raise
+    else:
+        self.temp.close()
+""",
+    """def __exit__(self, exc_type, exc_value, tback):
+    t = None
+    try:
+        t.close()
+    except FileNotFoundError:
+        return True
+    except Exception:
+        self._temp_name.unlink()
+        raise
+""",
+    # a bare raise inside a finally re-raises the exception in flight (or fails when there is none)
+    """def __exit__(self, exc_type, exc_value, tback):
+    try:
+        try:
+            self._temp_name.unlink()
+        finally:
+            raise
+    except FileNotFoundError:
+        self.temp.close()
+    except OSError:
+        self._temp_name.replace(self.filename)
+""",
+    # an exception in the else clause is not caught by the handlers of the same try; the finally still runs
+    """def __exit__(self, exc_type, exc_value, tback):
+    try:
+        self.temp.close()
+    except OSError:
+        self._temp_name.unlink(missing_ok=True)
+    else:
+        self._temp_name.replace(self.filename)
+    finally:
+        if exc_type is not None:
+            return False
+""",
+    # a handler that raises something new; an outer finally that swallows by returning
+    """def __exit__(self, exc_type, exc_value, tback):
+    try:
+        try:
+            self._temp_name.replace(self.filename)
+        except FileNotFoundError:
+            raise RuntimeError()
+        except OSError:
+            raise
+    except Exception:
+        self._temp_name.unlink()
+        return True
+    finally:
+        self.temp.close()
+""",
+    # return inside try, overridden by an exception raised in the finally
+    """def __exit__(self, exc_type, exc_value, tback):
+    try:
+        return True
+    finally:
+        self.temp.close()
+        self._temp_name.unlink()
+""",
+]
+
+
+def interp_correspondence(ck: Ck) -> None:
+    import ast as _ast
+    import contextlib
+    nprog = budget(ck, 120, 600)
+    progs: list[tuple[str, str]] = []          # (python source, coq term)
+    rejected = 0
+    sources = list(CORPUS_EXIT)
+    while len(sources) < len(CORPUS_EXIT) + nprog:
+        sources.append(gen_exit_source(ck.rng))
+    for src in sources:
+        fn = _ast.parse(src).body[0]
+        try:
+            term, _slots = c12_atomic._exit_prog(fn)
+        except c12_atomic.TranslateError:
+            rejected += 1           # the translator refuses (fail closed): nothing to compare
+            continue
+        progs.append((src, term))
+    oracles = [[], [1] * 6, [2] * 6, [0, 1], [0, 2], [0, 0, 1], [1, 0, 2]] + \
+              [[ck.rng.choice([0, 0, 1, 2]) for _ in range(6)] for _ in range(3)]
+    bad: list[dict] = []
+    n = 0
+    for lo in range(0, len(progs), 60):
+        part = progs[lo:lo + 60]
+        exprs = []
+        for _src, term in part:
+            walks = '; '.join(f'walk (exit_tree p {"true" if exc else "false"}) {coq_list(map(str, o))}'
+                              for exc in (False, True) for o in oracles)
+            exprs.append(f'let p := {term} in [{walks}]')
+        vals = ck.coq_eval(IMPORTS, [coq_list(exprs)], name='aw_interp', preamble=PRE)
+        if vals is None:
+            ck.obligation('correspondence:exit-interpreter', False, 'model could not be evaluated')
+            ck.tie_broken.append('correspondence exit interpreter: evaluation failed')
+            return
+        res = parse_coq_nested(vals[0])
+        for (src, _term), rows in zip(part, res):
+            ns: dict[str, Any] = {'os': _MockOs, 'suppress': contextlib.suppress, 'contextlib': contextlib}
+            exec(compile(src, '<generated __exit__>', 'exec'), ns)
+            fn = ns['__exit__']
+            it = iter(rows)
+            for exc in (False, True):
+                for o in oracles:
+                    log_m, fin_m = next(it)
+                    orc = _Orc(list(o))
+                    obj = type('W', (), {})()
+                    obj.temp, obj._temp_name, obj.filename = _MockTemp(orc), _MockPath(orc), object()
+                    ei = (ValueError, ValueError('body'), None) if exc else (None, None, None)
+                    try:
+                        rv = fn(obj, *ei)
+                        fin_r = 1 if (exc and not rv) else 0
+                    except (UnboundLocalError, NameError):
+                        fin_r = 2
+                    except BaseException:
+                        fin_r = 1
+                    n += 1
+                    ck.count('interpreter_cases')
+                    ck.hist('interp_calls', len(orc.log))
+                    ck.hist('interp_end', ['returns', 'raises', 'outside'][fin_m])
+                    if fin_m == 2 or fin_r == 2:
+                        ok = fin_m == fin_r
+                    else:
+                        ok = (log_m, fin_m) == (orc.log, fin_r)
+                    if len(orc.log) >= 1:
+                        ck.seen(('interp', hash(src) & 0xffffffff, exc, tuple(o)))
+                    if not ok:
+                        bad.append({'source': src, 'body_raised': exc, 'oracle': o, 'model': [log_m, fin_m],
+                                    'cpython': [orc.log, fin_r]})
+    ck.extra['interpreter_programs'] = {'compared': len(progs), 'rejected_by_translator': rejected}
+    ck.obligation('correspondence:exit-interpreter', not bad,
+                  f'{n} executions of {len(progs)} __exit__ bodies ({len(CORPUS_EXIT)} fixed + random; {rejected} refused by '
+                  f'the translator) in CPython against mock objects vs walk (exit_tree ..) in the kernel: {len(bad)} disagreements')
+    if bad:
+        ck.tie_broken.append('correspondence exit interpreter: the kernel interpreter / transliteration disagrees with CPython')
+        ck.extra['interpreter_disagreements'] = bad[:5]
+        ck.violation('exit-interpreter-disagrees-with-cpython',
+                     f'model {bad[0]["model"]} vs CPython {bad[0]["cpython"]} (body_raised={bad[0]["body_raised"]}, '
+                     f'oracle={bad[0]["oracle"]}) on\n{bad[0]["source"]}', bad[0])
+        ck.explain('correspondence:exit-interpreter')
+
+
 # =============================================================================================== main
 def run(ck: Ck) -> None:
     ck.level = 'proof'
     ck.extra['secondary_level'] = 'fault_enumeration (every kill point, every single OSError, every interleaving, executed)'
-    ck.rule = ('scenario = (destination old/new/nested/named like a temp file, stale tmp_N files, chunk list, buffer size '
-               '1/small/8192, bytes or text, body raising after j writes, BSP.save of a cut-down real map). For each scenario '
-               'the real code is run fault-free, then killed (os._exit in a forked child) after k operations for EVERY k, '
-               'then with one OSError injected at EVERY injectable raw operation (mkdir, open, write, flush-write, close, '
-               'replace, unlink); two writers are run under EVERY interleaving of their operations (DFS over schedules). '
-               'A case is distinct by (scenario kind, buffer size, kill/fault index) or by the full schedule; all are '
-               'non-trivial (each changes where the protocol is interrupted).')
-    ck.trusted.append('hand-written model SM/AtomicWriter.v (tied by the translator-generated cfg and by the executed '
-                      'crash/fault/interleaving correspondence on every run)')
+    ck.rule = ('scenario = (destination old/new/nested/named like a temp file, stale tmp_N files (none, gaps, 1..12 / 1..60), '
+               'chunk list, buffer size 1/small/8192, bytes or text, body raising after j writes, BSP.save of a cut-down real '
+               'map onto an existing / fresh path / new directory, with a lump that makes the body raise mid-way, without a '
+               'version, with a rebuild phase that raises). For each scenario the real code is run fault-free, then killed '
+               '(os._exit in a forked child) after k operations for EVERY k, then with one OSError injected at EVERY '
+               'injectable raw operation (mkdir, open, write, flush-write, close, replace, unlink); two writers (six pairs, '
+               'one with a shared destination) are run under EVERY interleaving (DFS over schedules) or at every pair of '
+               'operation boundaries (A^k1 B^k2 and B^k2 A^k1), and with one OSError at every operation of 3-6 schedules. '
+               'A case is distinct by (scenario kind, buffer size, kill/fault index), by the full schedule, or by '
+               '(pair, schedule, fault index); all are non-trivial (each changes where the protocol is interrupted). '
+               'Interpreter tie: program = random __exit__ body of the translator subset (2-5 top-level statements, depth <= 3, '
+               '<= 5 file-system calls) x {body returned, body raised} x 10 result oracles; distinct by (program, exc, oracle), '
+               'non-trivial when at least one call is performed.')
+    ck.trusted.append('hand-written machines SM/AtomicWriter.v (flags) and SM/AtomicExit.v (decision trees + interpreter of '
+                      'the generated __exit__ program), tied by the proved refinement, by the kernel-computed obligations on '
+                      'the generated program and by the executed crash/fault/interleaving correspondence on every run')
     ck.trusted.append('checks/c12.py interposer: io.FileIO subclass under the BufferedWriter/TextIOWrapper, patched io.open / '
                       'os.mkdir / os.unlink / os.replace; POSIX rename atomicity and O_EXCL are assumed, not verified')
     ck.assumptions += [
@@ -1005,18 +1620,44 @@ def run(ck: Ck) -> None:
     built = ok_t and ck.build(['Props/C12.vo', 'Gen/AtomicWriter_gen.vo'])
     if built:
         ck.theorems('Props/C12.v')
+        ok2, fl2 = 'x_ok aw_proto', 'x_exc aw_proto'
         ck.instance_obligations(IMPORTS, {
+            # hypotheses of the theorems in Props/C12.v, for the protocol generated from today's source
+            'proto_ok': 'proto_ok aw_proto',
+            'proto_safe': 'proto_safe aw_proto',
+            'exit_protocol_in_model_family': 'in_family aw_proto',
+            # the same, flag by flag (flags are computed in the kernel from the decision trees of the program)
             'temp_opened_exclusively_with_retry': 'c_excl aw_cfg',
             'body_exception_discards_temp': 'is_discard (c_on_exc aw_cfg)',
             'success_commits_by_replace': 'is_commit (c_on_ok aw_cfg)',
             'failing_close_still_unlinks_temp': 'c_close_guard aw_cfg',
             'failing_replace_still_unlinks_temp': 'c_replace_guard aw_cfg',
             'cfg_ok': 'cfg_ok aw_cfg',
-            'temp_closed_before_replace': 'aw_close_first',
+            # order of operations / exception flow, judged on the decision trees directly (independent of the family)
+            'exit_no_unmodelled_step': f'no_bad ({ok2}) && no_bad ({fl2})',
+            'temp_closed_before_replace': f'closes_first ({ok2}) && closes_first ({fl2})',
+            'exit_closes_temp_once': f'no_close (close_ok ({ok2})) && no_close (close_fl ({ok2})) && '
+                                     f'no_close (close_ok ({fl2})) && no_close (close_fl ({fl2}))',
+            'exit_failing_close_never_renames': f'no_replace (close_fl ({ok2})) && no_replace (close_fl ({fl2}))',
+            'exit_body_exception_never_renames': f'no_replace ({fl2})',
+            'exit_success_renames_after_close': f'success_commits ({ok2})',
+            'exit_every_failure_path_unlinks_temp': f'cleans ({ok2}) false && cleans ({fl2}) false',
+            'exit_never_swallows_an_exception': f'propagates ({ok2}) false && propagates ({fl2}) true',
+            'exit_success_returns_normally': f'ok_path_returns ({ok2})',
+            'exit_without_enter_does_nothing':
+                'xtree_eqb (exit_tree_unentered aw_exit_prog false) (XDone false) && '
+                'xtree_eqb (exit_tree_unentered aw_exit_prog true) (XDone true)',
             'temp_is_sibling_of_destination': 'aw_tmp_sibling',
+            # the temp-name loop (c12_open_loop_least_free / c12_temp_index_bounded speak about this loop)
+            'temp_loop_starts_at_1_and_is_unbounded': 'Nat.eqb aw_loop_start 1 && aw_loop_unbounded',
+            'temp_loop_name_is_tmp_index': 'aw_loop_template_ok',
+            'temp_loop_retries_only_on_file_exists': 'aw_loop_handler_inert && aw_loop_break_after_open',
+            'temp_loop_never_uses_the_destination': 'aw_loop_skips_destination',
             'bsp_module_never_modifies_files_directly': 'match bsp_fs_write_sites with nil => true | _ => false end',
             'bsp_save_writes_only_through_the_handle': 'forallb snd bsp_save_writes',
             'bsp_save_handle_is_binary': 'bsp_save_handle_is_bytes',
+            'bsp_save_output_is_always_an_atomic_writer':
+                'match bsp_save_with_ctors with nil => false | l => forallb snd l end',
         })
     # AST digests only escalate budgets (DESIGN 5.4)
     dig = side.get('digests', {})
@@ -1039,6 +1680,10 @@ def _campaigns(ck: Ck, built: bool) -> None:
     ck.extra['stage_seconds'] = stage
     stage['translate+build+obligations'] = round(time.time() - ck.t0, 1)
     t1 = time.time()
+    if built:
+        interp_correspondence(ck)
+    stage['interpreter'] = round(time.time() - t1, 1)
+    t1 = time.time()
     scs = scenarios(ck)
     single_campaign(ck, scs, bool(built))
     stage['single'] = round(time.time() - t1, 1)
@@ -1053,27 +1698,38 @@ def _campaigns(ck: Ck, built: bool) -> None:
     t1 = time.time()
     two_writer_campaign(ck, bool(built))
     stage['two'] = round(time.time() - t1, 1)
-    keys = {v['key'] for v in ck.violations}
-    if any(k.startswith('temp-left-after-close-fault') or k.startswith('temp-left-after-flush-fault') for k in keys):
-        ck.explain('instance:failing_close_still_unlinks_temp')
-    if any(k.startswith('temp-left-after-replace-fault') for k in keys):
-        ck.explain('instance:failing_replace_still_unlinks_temp')
-    if any(k.startswith('temp-left-after-') for k in keys):
-        ck.explain('instance:cfg_ok')
-    if any(k.startswith('two-writers:') or 'mixture' in k or k.startswith('dest-changed') or k.startswith('new-content')
-           for k in keys):
-        for nme in ('instance:temp_opened_exclusively_with_retry', 'instance:body_exception_discards_temp',
-                    'instance:success_commits_by_replace', 'instance:cfg_ok', 'instance:temp_closed_before_replace',
-                    'correspondence:'):
-            ck.explain(nme)
-    if keys:
-        ck.explain('correspondence:')
-    if any('mixture' in k or k.startswith(('dest-changed', 'new-content', 'temp-left', 'temp-file-outside', 'wrong-content',
-                                            'two-writers:', 'foreign-file'))
-           for k in keys):
-        ck.explain('translate:')
-    if 'temp-file-outside-destination-directory' in keys:
-        ck.explain('instance:temp_is_sibling_of_destination')
+    keys = {v['key'].removeprefix('bsp-save:') for v in ck.violations}
+    # which failed obligations a concrete violation (with a replay) explains
+    temp_left = any(k.startswith(('temp-left-after-', 'two-writers:temp-left', 'unexpected-files')) for k in keys)
+    dest_bad = any('mixture' in k or k.startswith(('dest-changed', 'new-content', 'old-content', 'wrong-content',
+                                                   'two-writers:', 'foreign-file', 'bad-content', 'dest-named'))
+                   for k in keys)
+    swallowed = any(k.startswith(('unexpected-outcome', 'bad-content-after-swallowed', 'unexpected-exception')) for k in keys)
+    table = [
+        (any(k.startswith(('temp-left-after-close-fault', 'temp-left-after-flush-fault')) for k in keys),
+         ['instance:failing_close_still_unlinks_temp']),
+        (any(k.startswith('temp-left-after-replace-fault') for k in keys), ['instance:failing_replace_still_unlinks_temp']),
+        (temp_left, ['instance:cfg_ok', 'instance:proto_ok', 'instance:exit_protocol_in_model_family',
+                     'instance:exit_every_failure_path_unlinks_temp', 'instance:body_exception_discards_temp']),
+        (dest_bad, ['instance:temp_opened_exclusively_with_retry', 'instance:body_exception_discards_temp',
+                    'instance:success_commits_by_replace', 'instance:cfg_ok', 'instance:proto_', 'instance:exit_',
+                    'instance:temp_closed_before_replace', 'instance:failing_']),
+        (swallowed, ['instance:exit_never_swallows_an_exception', 'instance:exit_success_returns_normally',
+                     'instance:exit_protocol_in_model_family', 'instance:proto_', 'instance:cfg_ok',
+                     'instance:success_commits_by_replace', 'instance:exit_success_renames_after_close',
+                     'instance:exit_no_unmodelled_step']),
+        (bool(keys), ['correspondence:']),
+        (temp_left or dest_bad or swallowed or 'temp-file-outside-destination-directory' in keys, ['translate:']),
+        ('temp-file-outside-destination-directory' in keys, ['instance:temp_is_sibling_of_destination']),
+        ('dest-named-like-temp-file' in keys, ['instance:temp_loop_never_uses_the_destination']),
+        (any(k.startswith(('temp-name-loop', 'unexpected-outcome', 'two-writers:', 'foreign-file')) for k in keys),
+         ['instance:temp_loop_']),
+        (bool(ck.extra.get('bsp_violations')), ['instance:bsp_', 'translate:']),
+    ]
+    for cond, names in table:
+        if cond:
+            for nme in names:
+                ck.explain(nme)
 
 
 def single_campaign_bsp(ck: Ck, bscs: list[dict], do_model: bool) -> None:
@@ -1100,14 +1756,15 @@ def replay(data: dict) -> int:
             sc['init'] = {n: bytes.fromhex(v) for n, v in sc['init'].items()}
             sc['chunks'] = [bytes.fromhex(c) if not sc.get('text') else c for c in sc.get('chunks', [])]
             if sc.get('bsp'):
-                sc['bsp'] = small_bsp(Path(root + '_src'))
                 os.makedirs(root + '_src', exist_ok=True)
+                sc['bsp'] = small_bsp(Path(root + '_src'))
             print('before:', {k: v[:40] for k, v in sc['init'].items()})
             if r['mode'] == 'crash':
                 rc, lst = run_crash(sc, os.path.join(root, 'd'), r['k'])
                 print(f'killed after {r["k"]} operations (child exit {rc})')
             else:
-                res = run_single(sc, os.path.join(root, 'd'), fault_at=r['k'])
+                res = run_single(sc, os.path.join(root, 'd'),
+                                 fault_at=frozenset(r['k']) if isinstance(r['k'], list) else r['k'])
                 lst = res['listing']
                 print('operations:', [(o['op'], o['name'], o['res']) for o in res['ops']])
                 print('outcome:', res['outcome'])
@@ -1117,7 +1774,7 @@ def replay(data: dict) -> int:
             for s in (sa, sb):
                 s['chunks'] = [bytes.fromhex(c) for c in s['chunks']]
             init = {n: bytes.fromhex(v) for n, v in r['scenario']['init'].items()}
-            res = run_two((sa, sb), os.path.join(root, 'd'), r['schedule'], init)
+            res = run_two((sa, sb), os.path.join(root, 'd'), r['schedule'], init, fault_at=r.get('fault_at'))
             print('operations:', [(o['w'], o['op'], o['name'], o['res']) for o in res['ops']])
             print('outcomes:', res['outcomes'])
             print('after :', res['listing'])
